@@ -653,32 +653,42 @@ func (c *collector) flush(r *core.Run) {
 		last  []finding
 	}
 	res := make([]verdict, len(hits))
-	core.ParallelRange(r, int64(len(hits)), nil, func(_ struct{}, i int64) {
-		h := hits[i]
-		if h.k.Table == "sleep" {
-			// five fresh runtimes side by side: a sleep case waits (up to the watchdog), it does not compute
-			var wg sync.WaitGroup
-			var n int32
-			for k := 0; k < 5; k++ {
-				wg.Add(1)
-				go func() {
-					defer wg.Done()
-					if fs, _ := checkCase(nil, h.k); hasClass(fs, h.f.Class) {
-						atomic.AddInt32(&n, 1)
-					}
-				}()
+	// own pool (ParallelRange hands out indices in chunks of 64, which would serialise a handful of hits):
+	// CPU-bound re-runs are limited to r.Workers, sleep re-runs only wait and all run side by side
+	sem := make(chan struct{}, r.Workers)
+	var wgAll sync.WaitGroup
+	for i := range hits {
+		wgAll.Add(1)
+		go func(i int) {
+			defer wgAll.Done()
+			h := hits[i]
+			if h.k.Table == "sleep" {
+				var wg sync.WaitGroup
+				var n int32
+				for k := 0; k < 5; k++ {
+					wg.Add(1)
+					go func() {
+						defer wg.Done()
+						if fs, _ := checkCase(nil, h.k); hasClass(fs, h.f.Class) {
+							atomic.AddInt32(&n, 1)
+						}
+					}()
+				}
+				wg.Wait()
+				res[i].repro = int(n)
+				return
 			}
-			wg.Wait()
-			res[i].repro = int(n)
-			return
-		}
-		for n := 0; n < 5; n++ {
-			fs, _ := checkCase(newWorker(), h.k)
-			if hasClass(fs, h.f.Class) {
-				res[i].repro++
+			sem <- struct{}{}
+			defer func() { <-sem }()
+			for n := 0; n < 5; n++ {
+				fs, _ := checkCase(newWorker(), h.k)
+				if hasClass(fs, h.f.Class) {
+					res[i].repro++
+				}
 			}
-		}
-	})
+		}(i)
+	}
+	wgAll.Wait()
 	for i, h := range hits {
 		if res[i].repro == 5 {
 			r.Violate("c15", h.f.Class, h.k, h.f.Expected, h.f.Got, fmt.Sprintf("%d case(s) in this class; re-confirmed 5/5 in fresh runtimes", counts[h.f.Class]))
